@@ -281,7 +281,13 @@ func runC11(c *Ctx, phase string) {
 		"-or-later rows of the table are exempt from the version-per-step and coverage rules: the library strips -or-later before it consults the table, so they are behaviourally dead",
 		"version order = numeric component-wise order of the number in the id text, trailing letter as tie-break")
 	c.Floor("families", int64(len(u.Ranges)))
-	c.Floor("families_with_plus_pairs", int64(len(u.Ranges)))
+	multi := 0 // families with at least two members: a one-version family has no '+' pair to execute
+	for fi := range u.Ranges {
+		if len(u.FamilyMembers(fi)) >= 2 {
+			multi++
+		}
+	}
+	c.Floor("families_with_plus_pairs", int64(multi))
 	c.Floor("plus_expected_true", 500)
 	c.Floor("plus_expected_false", 300)
 	c.Floor("plus_context_checks", 3000)
